@@ -10,3 +10,7 @@ CONSTANTS
   SeekTs = 0
   PartBarrierByShards = TRUE
   MayStop = TRUE
+  MaxRestarts = 0
+  StopForgetsParts = TRUE
+  DropRemembered = TRUE
+  MayStartAgain = FALSE
